@@ -497,6 +497,16 @@ impl PrettyPrinter {
             let new_widths = self.compute_column_widths(row);
             self.column_widths.extend(new_widths);
         });
+        if !self.fits_within_term_agg() {
+            // Widths remembered from earlier frames (a long value that has since left the
+            // table, a column that is gone) must not take space from the table being drawn:
+            // measure it on its own before anything is cut, as format_record_as_columns does.
+            self.column_widths = HashMap::new();
+            aggregate.data.iter().for_each(|row| {
+                let new_widths = self.compute_column_widths(row);
+                self.column_widths.extend(new_widths);
+            });
+        }
 
         self.column_widths = self.resize_widths_to_fit(&self.column_widths, &aggregate.columns);
         assert!(self.fits_within_term_agg(), "{:?}", self.column_widths);
